@@ -380,6 +380,8 @@ func genFixtures() []Fixture {
 	return out
 }
 
+var sctOIDDER = derx.OID(1, 3, 6, 1, 4, 1, 11129, 2, 4, 2)
+
 func loadFixtures() {
 	all := append(loadRepoFixtures(), genFixtures()...)
 	// derived inputs: TBSCertificate and SubjectPublicKeyInfo of every certificate fixture
@@ -393,6 +395,9 @@ func loadFixtures() {
 		loc, ok := locateCert(f.DER, false)
 		if !ok {
 			continue
+		}
+		if bytes.Contains(f.DER, sctOIDDER) { // certificates with an embedded SCT list: a kind of their own, so that the TLS-level operator has targets
+			all = append(all, Fixture{Name: f.Name + "/sct", Kind: "sctcert", DER: f.DER})
 		}
 		all = append(all, Fixture{Name: f.Name + "/tbs", Kind: "tbs", DER: f.DER[loc.tbs.off : loc.tbs.off+loc.tbs.n]})
 		spki := f.DER[loc.spki.off : loc.spki.off+loc.spki.n]
